@@ -72,7 +72,8 @@ class Tokenizer:
         try:
             return next(self._tokengen)
         except StopIteration:
-            last = self._tokens[-1] if self._tokens else None
+            # report at the last token that still carries its source line (a captured macro body does not)
+            last = next((t for t in reversed(self._tokens) if t.type != Token.MACRO_PARAM), None)
             raise self._syntax_error("unexpected EOF while parsing", last) from None
 
     def _syntax_error(self, message: str, tok: TokenInfo | None) -> SyntaxError:
